@@ -1144,6 +1144,11 @@ class Interp:
         if not (p.get("k") == "Path" and p.get("res") == "local"):
             raise Unsupported(f"push on {core.fingerprint(place, 3)}")
         cur = env.get(p["lid"], ("vec", ()))
+        if cur[0] in ("in", "fld", "app"):
+            # an opaque collection (a parameter, a field): it absorbs the element; iterating it later yields its
+            # generic element.  Recorded so that a rule that depends on the contents can refuse.
+            self.notes.append(f"push onto opaque collection {term_str(cur, 2)} at {core.loc(place)}")
+            return
         if cur[0] != "vec":
             raise Unsupported("push on a non-vector value")
         if self.loop_stack:
